@@ -205,6 +205,16 @@ class Check(PropertyCheck):
                     self.nontrivial.add(b)
                 if i < 3:
                     self.sample({"method": m, "path": p, "kind": kind, "status": ans[0]})
+            # bodies just inside the 2 MiB limit are converted like any other
+            small = ("+--+\n|ab|\n+--+\n").encode()
+            for size in (2 * 1024 * 1024, 2 * 1000 * 1000 + 1, self.rng.range(2000001, 2097151)):
+                body = small + b" " * (size - len(small))
+                st, ans = http(self.port, "POST", "/", body, timeout=120)
+                self.evaluations += 1
+                want = self.expected([("POST", "/", body, "utf8")]).get(0)
+                if st != 200 or ans != want:
+                    fails.append(Failure("a body of %d bytes (within the 2 MiB limit) was not answered 200 with the library's conversion" % size,
+                                         {"method": "POST", "path": "/", "size": size, "kind": "near-limit"}, {"status": st}))
             # oversized body
             big = b"-" * (2 * 1024 * 1024 + 10)
             st, _ = http(self.port, "POST", "/", big, timeout=60)
